@@ -360,6 +360,20 @@ Lemma mherr_failure c u t k :
   mherr c u t true k = RetErr (fst (handleError c u t true)) {| e_type := t; e_failure := true; e_url := u_input u |}.
 Proof. unfold mherr, handleError. cbn [orb fst]. reflexivity. Qed.
 
+Lemma nth_opt_none {A} (l : list A) : forall n, (length l <= n)%nat -> nth_opt l n = None.
+Proof.
+  induction l as [|x l IH]; intros n H; [destruct n; reflexivity|].
+  destruct n; cbn [length] in H; [lia|]. cbn [nth_opt]. apply IH. lia.
+Qed.
+
+(* the code point read by a step is cp_at at the new position, also at and beyond the end of the input *)
+Lemma r_cp inp p : (if (n_inp inp <=? p)%Z then rune_error else cp_at inp p) = cp_at inp p.
+Proof.
+  destruct (n_inp inp <=? p)%Z eqn:E; [|reflexivity].
+  unfold cp_at. destruct (p <? 0)%Z; [reflexivity|].
+  rewrite nth_opt_none; [reflexivity|]. unfold n_inp, len in E. lia.
+Qed.
+
 (* which states consult the scheme of the URL record before overwriting it *)
 Definition scheme_read (ov : option state) (st : state) : bool :=
   match st with
@@ -461,7 +475,8 @@ Section StepCongr.
   Lemma step_congr (Q : Prop) (m : mstate) :
     (scheme_read ov (m_state m) = true ->
        getSpecialScheme c1 (u_scheme (m_url m)) = getSpecialScheme c2 (u_scheme (m_url m))) ->
-    (m_state m = Scheme -> getSpecialScheme c1 (m_buf m) = getSpecialScheme c2 (m_buf m)) ->
+    (m_state m = Scheme -> cp_at inp (m_ptr m + 1) = 58 ->
+       getSpecialScheme c1 (m_buf m) = getSpecialScheme c2 (m_buf m)) ->
     (m_state m = HostSt \/ m_state m = HostnameSt \/ m_state m = FileHost -> forall ns,
        parseHost idna_raw c1 (m_url m) (m_buf m) ns = parseHost idna_raw c2 (m_url m) (m_buf m) ns
        \/ (Q /\ exists u e, parseHost idna_raw c1 (m_url m) (m_buf m) ns = Er u e)) ->
@@ -493,9 +508,12 @@ Section StepCongr.
     all: try solve [left; repeat desc].
     - (* Scheme *)
       left. unfold overridden. cbn [scheme_read] in Hs_u.
-      destruct (is_some ov) eqn:Eov; cbn [andb negb].
-      + specialize (Hs_u eq_refl). repeat desc.
-      + repeat desc.
+      match goal with |- (if ?b then _ else _) = _ => destruct b eqn:? end; [reflexivity|].
+      destruct (r =? 58) eqn:E58.
+      + assert (Hb : getSpecialScheme c1 buf = getSpecialScheme c2 buf).
+        { apply Hs_buf. apply N.eqb_eq in E58. rewrite <- E58. unfold r. symmetry. apply r_cp. }
+        clear Hs_buf. destruct (is_some ov) eqn:Eov; cbn [andb negb]; [specialize (Hs_u eq_refl)|]; repeat desc.
+      + clear Hs_buf. repeat desc.
     - (* HostSt *)
       specialize (Hhost (or_introl eq_refl)). norm.
       dd; [left; reflexivity|].
@@ -528,7 +546,8 @@ Section StepCongr.
   Lemma step_congr_eq (m : mstate) :
     (scheme_read ov (m_state m) = true ->
        getSpecialScheme c1 (u_scheme (m_url m)) = getSpecialScheme c2 (u_scheme (m_url m))) ->
-    (m_state m = Scheme -> getSpecialScheme c1 (m_buf m) = getSpecialScheme c2 (m_buf m)) ->
+    (m_state m = Scheme -> cp_at inp (m_ptr m + 1) = 58 ->
+       getSpecialScheme c1 (m_buf m) = getSpecialScheme c2 (m_buf m)) ->
     (m_state m = HostSt \/ m_state m = HostnameSt \/ m_state m = FileHost -> forall ns,
        parseHost idna_raw c1 (m_url m) (m_buf m) ns = parseHost idna_raw c2 (m_url m) (m_buf m) ns) ->
     (forall b, rune_at inp (m_ptr m + 1) = Some (Bad b) -> c_acceptInvalid c1 = c_acceptInvalid c2) ->
